@@ -19,6 +19,8 @@ type Gen struct {
 	RewrapPct    int // drop a manifest of the current list, keep its chunks elsewhere
 	OverlapPct   int // a new chunk covers a retained one
 	MalformedPct int // break a client assumption (shared id, raw link id, unknown manifest, used link id)
+	Touches      int // number of "touch" updates generated so far (EncPct > 0 only)
+	EncPct       int // re-encode the chunk references of an operation (0: every chunk carries file_id string and fid)
 }
 
 func NewGen(w *World, r *hx.Rng, paths []string) *Gen {
@@ -192,9 +194,41 @@ func (g *Gen) inScope(o Op) bool {
 func (g *Gen) Op(mix Mix) Op {
 	for {
 		if o := g.op1(mix); g.inScope(o) {
-			return o
+			return g.Encode(o)
 		}
 	}
+}
+
+// Encode chooses the wire encoding of the operation's chunk references (no draw when EncPct = 0):
+// all fid-only / all string-only / mixed (a function of the chunk id, so that a repeated id is encoded the
+// same way); a write or a link works on the ListEntries answer half of the time.
+func (g *Gen) Encode(o Op) Op {
+	if g.EncPct == 0 || !g.R.Chance(g.EncPct, 100) {
+		return o
+	}
+	cs := o.Chunks
+	if o.Kind == OpCreate || o.Kind == OpUpdate {
+		cs = o.E.Chunks
+	}
+	mode := g.R.Intn(5)
+	salt := uint64(g.R.Intn(3))
+	o.Enc = make([]byte, len(cs))
+	for i, c := range cs {
+		switch mode {
+		case 0:
+			o.Enc[i] = EncFid
+		case 1:
+			o.Enc[i] = EncStr
+		case 2:
+			o.Enc[i] = EncBoth
+		default:
+			o.Enc[i] = byte((c.Key*7 + salt) % 3)
+		}
+	}
+	if o.Kind == OpWrite || o.Kind == OpLink {
+		o.Listed = g.R.Bool()
+	}
+	return o
 }
 
 func (g *Gen) op1(mix Mix) Op {
@@ -219,6 +253,18 @@ func (g *Gen) op1(mix Mix) Op {
 		dir := r.Chance(15, 100)
 		if found && r.Chance(8, 10) {
 			dir = cur.Dir
+		}
+		if g.EncPct > 0 && OpKind(kind) == OpUpdate && found && !cur.Dir && cur.Hl == 0 &&
+			cur.Mtime != TimeNow && cur.Crtime != TimeNow && len(cur.Chunks) > 0 && r.Chance(1, 2) {
+			// a "touch": UpdateEntry with the entry exactly as it is stored (EqualEntry shortcut), half of the
+			// time with one more chunk that a stored chunk covers (garbage of the request itself)
+			e := cur
+			e.Chunks = append([]Chunk{}, cur.Chunks...)
+			if v := cur.Chunks[0]; !v.Man && r.Bool() {
+				e.Chunks = append([]Chunk{{Key: g.key(), Off: v.Off, Size: v.Size, Mtime: 0}}, e.Chunks...)
+			}
+			g.Touches++
+			return Op{Kind: OpUpdate, Path: p, E: e}
 		}
 		e := g.attrs(dir)
 		if !dir {
